@@ -692,7 +692,7 @@ impl Family for C15Family {
             id: "C15",
             level: "fault_enumeration",
             rule: "link world: for every public decoder (19 receiving ends: 5 WebAuthn JSON types, 6 CTAP2 CBOR types, AuthenticatorData, Bytes, U2F request, COSE key converter, fingerprint, domain/RP-ID, origin+RP-ID, and the stateful CTAPHID ChannelHandler) valid in-flight messages are produced by the real encoders (a simulated ceremony, the real HID sender, serde of real request values). Systematic single-fault sweep per message: truncation at every offset, a flip of every bit of the first 256 bytes, extension, at every CBOR header of a length-bearing item a rewrite of the declared length to 2^16-1, 2^16, 2^32-1, 2^40, 2^63-1, JSON numbers rewritten to huge values, nesting 64-100000 deep, U2F P1/INS/length fields over their whole range, HID packets resized to every length 0-130 with BCNT/seq rewritten, dropped, duplicated, swapped, and a 301-packet continuation stream; then seeded multi-fault combinations. Each case runs in a crash-isolated worker with a counting allocator and a per-case watchdog. Non-trivial = every damaged case (the undamaged one is the control); distinct = distinct (decoder, damaged bytes).",
-            assumptions: &["bounds: a single allocation above 256 x input length + 2 MiB, peak live heap above 512 x input length + 4 MiB (serde's own cautious pre-allocation of at most 1 MiB per sequence is deliberately inside the bound), or more than 10 s of CPU time for one case (inputs are below 64 KiB; honest decodes take microseconds) count as out of proportion", "the watchdog is the only measured (not computed) quantity in the whole simulator"],
+            assumptions: &["bounds: a single allocation above 256 x input length + 2 MiB, peak live heap above 512 x input length + 4 MiB (serde's own cautious pre-allocation of at most 1 MiB per sequence is deliberately inside the bound), or more than 0.5 s + 20 us per input byte of CPU time for one case (measured per case on the decoding thread; a watchdog kills a worker after 10 s of CPU; honest decodes take microseconds to milliseconds) count as out of proportion", "the watchdog is the only measured (not computed) quantity in the whole simulator"],
             real: &["serde Deserialize impls of all passkey-types WebAuthn/CTAP2 messages", "AuthenticatorData::from_slice", "Bytes::try_from(&str)", "u2f::Request::try_from", "public_key_der_from_cose_key", "valid_fingerprint", "public_suffix::effective_tld_plus_one", "RpIdVerifier::{is_valid_rp_id,assert_domain}", "hid::ChannelHandler::handle_packet", "the encoders that produced the corpus"],
             stubs: &["the link (fault injector)", "counting allocator", "watchdog", "worker isolation"],
             crash_isolated: true,
@@ -780,6 +780,7 @@ impl Family for C15Family {
         let c = corpus();
         stats.runs += 1;
         let mut out = Vec::new();
+        let mut cpu_us = 0u64;
         let (input_len, res, reading, sig) = if l.decoder == "hid" {
             let packets = apply_hid_faults(&c.hid_streams[(l.base as usize) % c.hid_streams.len()], &l.hid_faults);
             let len: usize = packets.iter().map(|p| p.len()).sum();
@@ -790,7 +791,9 @@ impl Family for C15Family {
             }
             stats.steps += packets.len() as u64;
             crate::guard::alloc_begin();
+            let t0 = crate::guard::thread_cpu_us();
             let res = std::panic::catch_unwind(|| decode_hid(&packets));
+            cpu_us = crate::guard::thread_cpu_us().saturating_sub(t0);
             (len, res, crate::guard::alloc_end(), f.finish())
         } else {
             let d = DECODERS.iter().position(|x| *x == l.decoder).unwrap_or(0);
@@ -802,7 +805,9 @@ impl Family for C15Family {
             stats.steps += 1;
             let dec = l.decoder.clone();
             crate::guard::alloc_begin();
+            let t0 = crate::guard::thread_cpu_us();
             let res = std::panic::catch_unwind(|| decode(&dec, &input));
+            cpu_us = crate::guard::thread_cpu_us().saturating_sub(t0);
             (input.len(), res, crate::guard::alloc_end(), f.finish())
         };
         stats.log_hashes.push(sig);
@@ -856,6 +861,16 @@ impl Family for C15Family {
         } else if reading.peak_live > 512 * input_len + (4 << 20) {
             fail(format!("C15/heap:{}", l.decoder), format!("decoder {} held {} bytes of heap for a {input_len}-byte input", l.decoder, reading.peak_live));
         }
+        // processing time in proportion to the input: honest decodes take microseconds to a few
+        // milliseconds; the bound leaves three orders of magnitude and is in CPU time of this thread
+        let cpu_bound_us = 500_000 + 20 * input_len as u64;
+        if cpu_us > cpu_bound_us {
+            fail(format!("C15/cpu:{}", l.decoder), format!("decoder {} consumed {} ms of CPU time on a {input_len}-byte input (bound {} ms)", l.decoder, cpu_us / 1000, cpu_bound_us / 1000));
+        }
+        let e = stats.maxima.entry(format!("cpu_us:{}", l.decoder)).or_insert(0);
+        *e = (*e).max(cpu_us);
+        let e = stats.maxima.entry(format!("single_allocation_bytes:{}", l.decoder)).or_insert(0);
+        *e = (*e).max(reading.max_request as u64);
         if stats.samples.len() < 3 && damaged && stats.runs % 97 == 0 {
             stats.sample(serde_json::json!({"decoder": l.decoder, "base_message": l.base, "faults": l.faults, "hid_faults": l.hid_faults, "input_len": input_len, "max_single_allocation": reading.max_request}));
         }
